@@ -4,6 +4,7 @@ import HpoProofs.Ic
 import HpoProps.C02
 import HpoProofs.ObsEq
 import HpoProofs.Bulk
+import HpoProofs.BulkFast
 /-!
 # C03 — information content equals −ln(n/N) for each annotation kind
 
@@ -147,6 +148,16 @@ call `add_gene` / `add_omim_disease` / `add_orpha_disease` — the harness makes
 theorem C03_bulk_is_repeated_add (o : Onto) (k : Kind) (name : List Char) (first count : Nat) :
     o.addRecRangeFast k name first count = o.addRecRange k name first count :=
   Onto.addRecRangeFast_eq o k name first count
+
+/-- The one-pass bulk annotation the driver runs (`bulkann`: when a guard evaluated on the term and
+its cached ancestors holds, the records `first+count-1, …, first` are appended and the ids are put in
+front of the annotation groups of the term and its cached ancestors; otherwise the calls are made one
+by one) is the `count`-fold repetition of the Builder call `annotate_*` in descending id order,
+stopping at the first error — for all arguments; the harness makes exactly those calls. -/
+theorem C03_bulk_annotate_is_repeated_annotate (o : Onto) (k : Kind) (name : List Char)
+    (t first count : Nat) :
+    o.annotateRangeFast k name t first count = o.annotateRange k name t first count :=
+  Onto.annotateRangeFast_eq o k name t first count
 
 /-! ### the sign / order clauses for EVERY correctly-rounding arithmetic
 
